@@ -170,13 +170,29 @@ class Ctx:
                     extra=self.extra, wall=time.time() - self.t0)
 
 
+def fresh_strings(x, depth=0):
+    """the same parameters with every string value a newly made object: an option name that reaches the library from a file, the
+    command line or JSON is equal to, not identical with, the literal in the library's source (`unit is 'deg'` is then False)"""
+    if isinstance(x, str):
+        return (x + ' ')[:-1] if len(x) > 1 else x
+    if depth > 6:
+        return x
+    if isinstance(x, dict):
+        return {k: fresh_strings(v, depth + 1) for k, v in x.items()}
+    if isinstance(x, list):
+        return [fresh_strings(v, depth + 1) for v in x]
+    if isinstance(x, tuple):
+        return tuple(fresh_strings(v, depth + 1) for v in x)
+    return x
+
+
 def drive(runners, ctx, kind, params):
     """Execute one replayable case under the monitors (params are restored through J/U so that a
     replay sees exactly what the first run saw)."""
     ctx.case = dict(kind=kind, params=params)
     ctx.ncases += 1
     try:
-        runners[kind](ctx, params)
+        runners[kind](ctx, fresh_strings(params))
     except Exception:
         if len(ctx.harness_errors) < 5:
             ctx.harness_errors.append('case %s: %s' % (short(J(ctx.case), 600), fmt_tb()))
